@@ -524,6 +524,16 @@ func (b *builder) section() {
 		} else {
 			b.stmt()
 		}
+		// an import may also stand between statements: it applies to the names that follow it and
+		// leaves those before it alone (a reference repeated after the import resolves differently)
+		if i < n-1 && b.chance(1, 4, "lateimport") {
+			b.feats["import:late"]++
+			b.imports()
+			if b.lastRef != "" && b.chance(1, 2, "repeatref") {
+				b.feats["ref:repeated-after-late-import"]++
+				b.repeatLastRef()
+			}
+		}
 	}
 }
 
